@@ -2109,3 +2109,10 @@ mod tests {
         assert_eq!(stream.write(&data), Err(WriteError::Blocked));
     }
 }
+
+#[cfg(feature = "__verif-hooks")]
+#[allow(missing_docs, unreachable_pub, dead_code, unused_imports, unused_qualifications)]
+pub mod verif {
+    use super::*;
+    include!(concat!(env!("QUINN_VERIF_HOOKS"), "/proto/connection/streams/state.rs"));
+}
